@@ -1461,6 +1461,10 @@ func c09Constructs(r *Rng, tier string, rep *Report) {
 		if !g.exact {
 			continue
 		}
+		// an opening delimiter outside the recorded regions (e.g. "<?pi ..." with the "<?" dialect) starts a region of its own
+		if tk.tb != "" && strings.Contains(g.plainFrom(0), tk.tb) {
+			continue
+		}
 		c09CompareExp(rep, g.buf, tk.tb, tk.te, g.exp)
 		rep.Eval(fmt.Sprintf("k%d:%x", tk.k, g.buf), len(g.exp) >= 3, fmt.Sprintf("k%d", tk.k))
 	}
